@@ -277,8 +277,9 @@ Variable E : env.
 Variable cfg1 cfg2 : ccfg.
 Hypothesis T1 : c_tuple cfg1 = false.
 Hypothesis T2 : c_tuple cfg2 = false.
-Hypothesis F1 : c_forbid cfg1 = false.
-Hypothesis F2 : c_forbid cfg2 = false.
+Hypothesis F12 : c_forbid cfg1 = c_forbid cfg2.
+(* BaseConverter has no forbid_extra_keys: when the two converters are of different classes the option is off *)
+Hypothesis FB : c_gen cfg1 <> c_gen cfg2 -> c_forbid cfg1 = false.
 Hypothesis R1 : c_recheck cfg1 = true.
 Hypothesis R2 : c_recheck cfg2 = true.
 Hypothesis K1 : c_kw_last cfg1 = true.
@@ -362,19 +363,24 @@ Qed.
 
 (* generated hooks of such classes compute the specification, in either mode *)
 Lemma gen_is_spec (cfg : ccfg) c cd hs o :
-  c_recheck cfg = true -> c_kw_last cfg = true -> c_forbid cfg = false ->
+  c_recheck cfg = true -> c_kw_last cfg = true ->
   wf val (topt cfg c) nov (cd_fields cd) -> (forall f, In f (cd_fields cd) -> f_init f = true) ->
   to_opt (if c_dv cfg then tpl_detailed val noK (topt cfg c) nov hs (c_recheck cfg) (cd_fields cd) o
           else tpl_fast val noK (topt cfg c) nov hs (c_kw_last cfg) (cd_fields cd) o)
   = spec_struct val noK (topt cfg c) nov hs (cd_fields cd) o.
 Proof.
-  intros Hr Hk Hf W Hi. rewrite Hr, Hk. destruct (c_dv cfg).
+  intros Hr Hk W Hi. rewrite Hr, Hk. destruct (c_dv cfg).
   - apply detailed_refines_spec.
   - unfold nov in *. apply (fast_is_spec val noK (topt cfg c) (cd_fields cd) W Hi).
 Qed.
 
 Lemma topt_eq c : topt cfg1 c = topt cfg2 c.
-Proof. unfold topt. now rewrite F1, F2. Qed.
+Proof. unfold topt. now rewrite F12. Qed.
+
+(* the TypeError raised while building the message of ForbiddenExtraKeysError for a non-str key replaces one error by another *)
+Lemma to_opt_adjust (b : bool) (r : result (inst val)) :
+  to_opt (if b then match r with Err (EForbidden _ _) | Err (EClassVal _ _) => Err EType | _ => r end else r) = to_opt r.
+Proof. destruct b; [|reflexivity]. destruct r as [x|e|]; try reflexivity. destruct e; reflexivity. Qed.
 
 Theorem structure_agree : forall n t o, (c_gen cfg1 = c_gen cfg2 \/ shaped n t o) -> to_opt (s1 n t o) = to_opt (s2 n t o).
 Proof.
@@ -427,10 +433,10 @@ Proof.
   - (* class *)
     destruct (e_class E c) as [cd|] eqn:Ec; [|reflexivity].
     destruct (H_env c cd Ec) as (W & Hi).
-    rewrite T1, T2, F1, F2. cbn [andb].
+    rewrite T1, T2.
     set (h1 := fun fname v => match assoc (cd_types cd) fname with Some ft => s1 n ft v | None => Ok v end).
     set (h2 := fun fname v => match assoc (cd_types cd) fname with Some ft => s2 n ft v | None => Ok v end).
-    rewrite !to_opt_bind. f_equal.
+    rewrite !to_opt_bind. f_equal. rewrite !to_opt_adjust.
     assert (W2 : wf val (topt cfg2 c) nov (cd_fields cd)) by (rewrite <- topt_eq; exact W).
     assert (Hkey : forall f, key_of val (topt cfg1 c) nov f = f_name f) by (intros f; reflexivity).
     destruct Hs as [Hg|Hsh].
@@ -438,7 +444,7 @@ Proof.
       assert (Hext : forall nm v, to_opt (h1 nm v) = to_opt (h2 nm v)).
       { intros nm v. unfold h1, h2. destruct (assoc (cd_types cd) nm); [apply Hsub; now left | reflexivity]. }
       rewrite <- Hg. destruct (c_gen cfg1).
-      * rewrite (gen_is_spec cfg1 c cd h1 _ R1 K1 F1 W Hi), (gen_is_spec cfg2 c cd h2 _ R2 K2 F2 W2 Hi). rewrite <- topt_eq.
+      * rewrite (gen_is_spec cfg1 c cd h1 _ R1 K1 W Hi), (gen_is_spec cfg2 c cd h2 _ R2 K2 W2 Hi). rewrite <- topt_eq.
         apply spec_struct_ext. intros f v _ _. apply Hext.
       * apply interp_dict_ext. intros f v _ _. apply Hext.
     + (* Converter against BaseConverter: the payload is a mapping *)
@@ -448,12 +454,13 @@ Proof.
         unfold h1, h2. destruct (assoc (cd_types cd) (f_name f)) as [ft|] eqn:Et; [|reflexivity]. apply Hsub. right. eapply Hf; eassumption. }
       assert (Hspec : spec_struct val noK (topt cfg1 c) nov h1 (cd_fields cd) (dict_obj (nkeys kvs)) = spec_struct val noK (topt cfg1 c) nov h2 (cd_fields cd) (dict_obj (nkeys kvs))).
       { apply spec_struct_ext. intros f v Hin Hg. rewrite Hkey in Hg. now apply Hext. }
-      assert (Of : t_forbid (topt cfg1 c) = false) by (cbn; exact F1).
-      destruct (c_gen cfg1), (c_gen cfg2).
-      * rewrite (gen_is_spec cfg1 c cd h1 _ R1 K1 F1 W Hi), (gen_is_spec cfg2 c cd h2 _ R2 K2 F2 W2 Hi). rewrite <- topt_eq. exact Hspec.
-      * rewrite (gen_is_spec cfg1 c cd h1 _ R1 K1 F1 W Hi). unfold nov in *.
+      destruct (c_gen cfg1) eqn:G1, (c_gen cfg2) eqn:G2.
+      * rewrite (gen_is_spec cfg1 c cd h1 _ R1 K1 W Hi), (gen_is_spec cfg2 c cd h2 _ R2 K2 W2 Hi). rewrite <- topt_eq. exact Hspec.
+      * assert (Of : t_forbid (topt cfg1 c) = false) by (cbn; apply FB; discriminate).
+        rewrite (gen_is_spec cfg1 c cd h1 _ R1 K1 W Hi). unfold nov in *.
         rewrite (interp_refines_spec val noK (topt cfg1 c) eq_refl Of h2 (cd_fields cd) W Hi (nkeys kvs)). exact Hspec.
-      * rewrite (gen_is_spec cfg2 c cd h2 _ R2 K2 F2 W2 Hi). rewrite <- topt_eq. unfold nov in *.
+      * assert (Of : t_forbid (topt cfg1 c) = false) by (cbn; apply FB; discriminate).
+        rewrite (gen_is_spec cfg2 c cd h2 _ R2 K2 W2 Hi). rewrite <- topt_eq. unfold nov in *.
         rewrite (interp_refines_spec val noK (topt cfg1 c) eq_refl Of h1 (cd_fields cd) W Hi (nkeys kvs)). exact Hspec.
       * apply interp_dict_ext. exact Hext.
   - (* NewType *)
